@@ -119,6 +119,23 @@ where
             fmt_ev::<F>(ev, lay, a, kind, fs, w, p);
         }
     }
+    // round-trip only (cheap): every 2^k, 2^k +- 1 and their negations (the values whose shortest decimal form is longest or
+    // shortest), plus random patterns from a separate PRNG stream.  Whether the default output still identifies the value depends
+    // on the digit budget ceil(Frac * log10 2), i.e. on each Frac separately; a few percent of the values need the full budget.
+    for k in 0..lay.n {
+        for d in [0u128, 1, lay.mask()].iter() {
+            let v = (1u128 << k).wrapping_add(*d) & lay.mask();
+            rt_ev::<F>(ev, lay, v);
+            if lay.signed {
+                rt_ev::<F>(ev, lay, v.wrapping_neg() & lay.mask());
+            }
+        }
+    }
+    let mut rng2 = args.rng_for(lay, 109);
+    for _ in 0..args.n * 4 {
+        let a = if rng2.chance(1, 2) { rng2.next128() & lay.mask() } else { gen_bits(&mut rng2, lay) };
+        rt_ev::<F>(ev, lay, a);
+    }
 }
 
 fn main() {
